@@ -39,7 +39,6 @@ func Run(p *load.Program, tier string) *oblig.Set {
 	}
 	loopRule(p, s)
 	readerRule(p, s)
-	reportRule(p, s)
 	segmentsRule(p, s)
 	recoverRule(p, s)
 	pairingRule(p, s)
@@ -700,98 +699,6 @@ func readerRule(p *load.Program, s *oblig.Set) {
 		}
 	}
 	_ = recv
-}
-
-// reportRule (P5): rendering the caret line of a parse error cannot abort:
-// every strings.Repeat count is non-negative on its path.
-func reportRule(p *load.Program, s *oblig.Set) {
-	fn := p.Func("types/node", "reportError")
-	if fn == nil {
-		s.Unk("ANCHOR", "node.reportError", "-", "not found")
-		return
-	}
-	pos := p.Pos(fn.Pos())
-	o := &absint.Oracle{}
-	nRepeat := 0
-	bad := map[string]bool{}
-	for n := 0; n < 500; n++ {
-		in := absint.NewInterp(p.SSA, o)
-		in.Hooks.Call = func(in *absint.Interp, callee *ssa.Function, args []absint.Val, site ssa.Instruction) (absint.Val, bool) {
-			name := callee.String()
-			switch {
-			case name == "strings.Repeat":
-				nRepeat++
-				cnt := args[1]
-				ok := false
-				if c, isC := absint.ConstInt(cnt); isC && c >= 0 {
-					ok = true
-				}
-				for _, c := range in.CondV {
-					sv, isS := c.V.(*absint.Sym)
-					if !isS || len(sv.Args) != 2 {
-						continue
-					}
-					// cond: X < Y (true) or Y > X (true) or X >= Y (false) ...
-					var lo, hi absint.Val
-					switch {
-					case sv.Op == "<" && c.B, sv.Op == ">=" && !c.B:
-						lo, hi = sv.Args[0], sv.Args[1]
-					case sv.Op == ">" && c.B, sv.Op == "<=" && !c.B:
-						lo, hi = sv.Args[1], sv.Args[0]
-					default:
-						continue
-					}
-					// hi - lo >= 1, so hi - lo - 1 >= 0
-					d := in.BinOp(token.SUB, hi, lo, types.Typ[types.Int], types.Typ[types.Int])
-					d1 := in.BinOp(token.SUB, d, absint.MkInt(1), types.Typ[types.Int], types.Typ[types.Int])
-					if absint.Key(d1) == absint.Key(cnt) || absint.Key(d) == absint.Key(cnt) {
-						ok = true
-					}
-				}
-				if !ok {
-					bad[p.Pos(site.Pos())+": count "+absint.Key(cnt)+" under ["+strings.Join(in.CondLog, "; ")+"]"] = true
-				}
-				return absint.NewVar("repeated", types.Typ[types.String]), true
-			case strings.HasSuffix(name, "combinator.Error).From"):
-				return absint.NewVarRange("FROM", types.Typ[types.Int], absint.I64(0), nil), true
-			case strings.HasSuffix(name, "combinator.Error).To"):
-				return absint.NewVarRange("TO", types.Typ[types.Int], absint.I64(0), nil), true
-			case callee.Pkg != nil && callee.Pkg.Pkg.Path() != load.ModPath+"/types/node":
-				if callee.Signature.Results().Len() == 0 {
-					return nil, true
-				}
-				if callee.Signature.Results().Len() == 1 {
-					return &absint.Sym{Op: name, Args: args, T: callee.Signature.Results().At(0).Type()}, true
-				}
-				tu := &absint.Tuple{}
-				for i := 0; i < callee.Signature.Results().Len(); i++ {
-					tu.E = append(tu.E, &absint.Sym{Op: fmt.Sprintf("%s.%d", name, i), Args: args, T: callee.Signature.Results().At(i).Type()})
-				}
-				return tu, true
-			}
-			return nil, false
-		}
-		_, end := in.Run(fn, []absint.Val{absint.NewVar("ERR", fn.Params[0].Type()), absint.NewVar("LINE", types.Typ[types.String])})
-		if end != nil && end.Kind != "panic" {
-			s.Unk("P5", "node.reportError / path", pos, "could not be evaluated: "+end.Error())
-		}
-		if !o.Next() {
-			break
-		}
-	}
-	key := "node.reportError / caret and squiggle counts are never negative"
-	switch {
-	case nRepeat == 0:
-		s.OK("P5", key, pos, "no strings.Repeat")
-	case len(bad) == 0:
-		s.OK("P5", key, pos, "every strings.Repeat count equals a difference that a comparison on the same path makes positive")
-	default:
-		var l []string
-		for b := range bad {
-			l = append(l, b)
-		}
-		s.Bad("P5", key, pos, "strings.Repeat panics on a negative count; a count is not guarded by a comparison that makes it non-negative", l...)
-	}
 }
 
 // segmentsRule (P6): the code and data segments only grow. Outside the
